@@ -79,7 +79,7 @@ def check(ctx):
         i = ops.get(("prunable_statuses", "insert"), [None])[0]
         if q is not None and i is not None:
             o = Origins(b, 1)
-            ctx.add("2.same-timestamp", "PROV", atom_match(o.atoms(q.args[1]), "local:now") and atom_match(o.atoms(i.args[2]), "local:now") and
+            ctx.add("2.same-timestamp", "PROV", atom_match(o.atoms(q.args[1]), "call:tokio::time::instant::Instant::now") and atom_match(o.atoms(i.args[2]), "call:tokio::time::instant::Instant::now") and
                     len(b.calls_to("tokio::time::instant::Instant::now")) == 1, "the queue entry and the cached status carry the same timestamp", sites=[q.where(), i.where()], site_key="now")
         pb = F.unit(f"{M}::is_prunable").root
         sws = ctx.enum_switches(pb, TS)
